@@ -637,6 +637,28 @@ func (c *SpecCtx) ssaName(name string) (TV, bool) {
 		}
 		return TV{}, false
 	}
+	if name == "$exhausted" {
+		// the innermost enclosing range-over-map/string loop has run out of elements (false inside the body,
+		// hence false on a `break`): `exit $exhausted` says the walk visits every element
+		for d := b; d != nil; d = d.Idom() {
+			for _, in := range d.Instrs {
+				nx, ok := in.(*ssa.Next)
+				if !ok {
+					continue
+				}
+				for _, in2 := range d.Instrs {
+					if ex, ok := in2.(*ssa.Extract); ok && ex.Tuple == nx && ex.Index == 0 {
+						tv, ok := get(ex, false)
+						if !ok {
+							return TV{}, false
+						}
+						return TV{Sc{not(tv.V.(Sc).T)}, mathBool}, true
+					}
+				}
+			}
+		}
+		return TV{}, false
+	}
 	if name == "$idx" {
 		// completed iterations of the innermost enclosing range loop (at its header), i.e. the index of
 		// the element being processed when used inside the body
